@@ -726,12 +726,13 @@ impl LpgStore {
                 }
             }
 
-            // Remove properties
-            drop(nodes); // Release lock before removing properties
-            drop(index);
-            drop(node_labels);
+            // Remove properties while the node is still locked: once another thread can
+            // see the node as deleted, its properties and index entries are gone too.
             self.remove_from_property_indexes(id);
             self.node_properties.remove_all(id);
+            drop(nodes);
+            drop(index);
+            drop(node_labels);
 
             // Note: Caller should use delete_node_edges() first if detach is needed
 
